@@ -84,8 +84,8 @@ def plan_C02(tier, seed):
 
 def plan_C03(tier, seed):
     return dict(level="exploration", rule=RULE_ARENA + "; C03 oracle: global-allocator ledger (exactly-once, same layout, only inside reset/drop, nothing left after drop), refusal schedules on",
-                shards=arena_shards(seed, tier, ["chunks", "general"], 80, 800),
-                require={"ledger.acquired": 2000, "ledger.released": 2000, "env.refusals_injected": 20}, assumptions=ASSUME_COMMON)
+                shards=arena_shards(seed, tier, ["chunks", "general"], 80, 800) + [sh("debug", "ctor_table", seed, 0), sh("release", "ctor_table", seed, 1)],
+                require={"ledger.acquired": 2000, "ledger.released": 2000, "env.refusals_injected": 20, "c03.constructor_calls_checked_for_leaks": 100}, assumptions=ASSUME_COMMON)
 
 
 def plan_C04(tier, seed):
